@@ -36,7 +36,7 @@ import ast
 import os
 
 from .. import translate
-from . import normalize
+from . import lifecycle_helpers, normalize
 from ..translate import Untranslatable
 
 ADV = "fairlearn/adversarial/_adversarial_mitigation.py"
@@ -263,6 +263,45 @@ class ClassView:
                         continue
                     self.bad(p if p is not None else n, "bare use of self that I do not understand (aliasing?)")
         return sorted(assigned), sorted(mutated), sorted(escapes)
+
+    def other_calls(self, roots, helper_attr):
+        """calls on attribute objects in the closure of `roots` that are NOT followed: `<attr>.<method>` for a method call on
+        `self.<attr>` / an element of it, `<attr>()` for a call of the attribute (or of an element) itself; the helper attribute
+        whose class IS followed (lifecycle_helpers) is left out"""
+        out = set()
+        for mn in self.closure(roots):
+            for n in ast.walk(self.methods[mn]):
+                if not isinstance(n, ast.Call):
+                    continue
+                f = n.func
+                if isinstance(f, ast.Attribute) and _is_self(f.value):
+                    if f.attr not in self.methods:
+                        out.add(f.attr + "()")
+                elif isinstance(f, ast.Attribute):
+                    r = _root_self_attr(f)
+                    if r is not None and r != helper_attr:
+                        out.add(f"{r}.{f.attr}")
+                elif isinstance(f, ast.Subscript):
+                    r = _self_attr(f.value) or _root_self_attr(f)
+                    if r is not None and r != helper_attr:
+                        out.add(r + "()")
+        return sorted(out)
+
+    def validate_resets(self, roots):
+        """methods in the closure of `roots` that call `validate_data(self, ..)` without the literal `reset=False`: sklearn's
+        default `reset=True` REWRITES `n_features_in_` / `feature_names_in_` of the estimator from the array it is given"""
+        out = set()
+        for mn in self.closure(roots):
+            for n in ast.walk(self.methods[mn]):
+                if isinstance(n, ast.Call) and ast.unparse(n.func).split(".")[-1] in ("validate_data", "_validate_data") \
+                        and any(_is_self(a) for a in n.args):
+                    kw = {k.arg: k.value for k in n.keywords}
+                    if None in kw:
+                        self.bad(n, "validate_data(self, .., **kwargs): cannot see `reset`")
+                    r = kw.get("reset")
+                    if not (isinstance(r, ast.Constant) and r.value is False):
+                        out.add(mn)
+        return sorted(out)
 
     # ------------------------------------------------------------------ return analysis
     def returns(self, roots):
@@ -981,13 +1020,16 @@ def analyse(repo):
                          fitReceivers=cv.receivers(roots), fitHistoryReads=hist, initDerivedReads=initd,
                          initDerivedDeps=cv.init_derived(),
                          fitDefinitelyAssigned=cv.definitely_assigned("fit") if tag != "LAG" else [],
-                         predictReads=cv.fitted_reads(pmeth))
+                         predictReads=cv.fitted_reads(pmeth), predictValidateResets=cv.validate_resets(pmeth),
+                         predictOtherCalls=cv.other_calls(pmeth, lifecycle_helpers.HELPERS.get(tag, ("",))[0]))
     latch = _moment_latch(repo)
     cons = {}
     for tag in ("EG", "GS"):
         cons[tag] = _constraints_use(views[tag], FIT_ROOTS, views["LAG"])
     reinit, setup, keep = _adv_rules(repo, views["ADV"])
     data["_toprefit"] = _to_prefit(views["TO"])
+    # the prediction closure followed across the helper objects (InterpolatedThresholder, the backend engines)
+    data["_helpers"] = lifecycle_helpers.analyse_helpers(repo, {t: views[t] for t, _, _ in CLASSES}, PREDICT_ROOTS)
     return data, latch, cons, (reinit, setup, keep)
 
 
@@ -1037,6 +1079,12 @@ def lifecycle_src(repo):
                  "`self.<name>` rebound or stored into in the closure of the prediction entry points")
     src += table("predictSelfEscapes", "List String", lambda d: slist(d["predictSelfEscapes"]),
                  "callees that receive the bare `self` in the closure of the prediction entry points")
+    src += table("predictOtherCalls", "List String", lambda d: slist(d["predictOtherCalls"]),
+                 "calls on attribute objects in that closure that are NOT followed (`<attr>.<method>`, `<attr>()`): the wrapped "
+                 "estimators, the label transformer, the predictor function — the helper attribute of `helperAttr` is followed instead")
+    src += table("predictValidateResets", "List String", lambda d: slist(d["predictValidateResets"]),
+                 "methods of that closure that call `validate_data(self, ..)` WITHOUT `reset=False` (sklearn then rewrites "
+                 "`n_features_in_` / `feature_names_in_` of the estimator from the array to predict on)")
     src += f"/-- some `load_data` under fairlearn/reductions/_moments refuses a second call ({', '.join(latch) or 'none'}) -/\n"
     src += f"def momentLatch : Bool := {'true' if latch else 'false'}\n\n"
     src += "/-- fit calls `load_data` on the object behind the `constraints` parameter itself -/\n"
@@ -1050,6 +1098,43 @@ def lifecycle_src(repo):
     src += f"def toPrefitRefits : Bool := {'true' if pre_refits else 'false'}\n"
     src += "/-- … and `self.estimator_ = self.estimator` (the user's object is used as it is) -/\n"
     src += f"def toPrefitAliases : Bool := {'true' if pre_alias else 'false'}\n\n"
+    est_h, hfacts = data["_helpers"]
+    htags = lifecycle_helpers.HELPER_TAGS
+
+    def plist(xs):
+        return "[" + ", ".join(f"({lstr(a)}, {lstr(b)})" for a, b in xs) + "]"
+
+    def htable(name, typ, fmt, doc):
+        rows = "\n".join(f"  | .{t} => {fmt(hfacts[t])}" for t in htags)
+        return f"/-- {doc} -/\ndef {name} : HelperCls → {typ}\n{rows}\n"
+    src += ("/-- helper classes the closure of the prediction entry points is followed into: "
+            + "; ".join(f"{t} = {hfacts[t]['cls']}" for t in htags)
+            + " (IT is held by `ThresholdOptimizer.interpolated_thresholder_`, the engines by `_AdversarialFairness.backendEngine_`) -/\n")
+    src += "inductive HelperCls where\n" + "".join(f"  | {t}\n" for t in htags) + "deriving DecidableEq, Repr\n\n"
+    src += "def allHelpers : List HelperCls := [" + ", ".join("." + t for t in htags) + "]\n\n"
+    src += "/-- the attribute of the estimator that holds the helper object (\"\" = the class delegates to no helper class) -/\n"
+    src += "def helperAttr : EstCls → String\n" + "".join(f"  | .{t} => {lstr(est_h[t]['attr'])}\n" for t in tags)
+    src += "/-- the helper classes behind that attribute (for the engines: the base class and every subclass) -/\n"
+    src += "def helpersOf : EstCls → List HelperCls\n" + "".join(
+        f"  | .{t} => [" + ", ".join("." + h for h in est_h[t]["helpers"]) + "]\n" for t in tags)
+    src += "/-- methods the closure of the prediction entry points calls on the helper object (`self.<helperAttr>.<m>(..)`) -/\n"
+    src += "def helperPredictCalls : EstCls → List String\n" + "".join(f"  | .{t} => {slist(est_h[t]['calls'])}\n" for t in tags)
+    src += htable("helperPredictClosure", "List String", lambda d: slist(d["closure"]),
+                  "`Class.method` for every method of the helper class (and its bases) reachable from those calls")
+    src += htable("helperPredictWrites", "List String", lambda d: slist(d["writes"]),
+                  "attributes of the helper object (`base.<a>`: of the estimator behind `self.base`) that this closure rebinds, "
+                  "stores into in place, or mutates through a mutating method call (`<a>.<m>()`), also through local aliases")
+    src += htable("helperPredictModeCalls", "List (String × String)", lambda d: plist(d["modes"]),
+                  "train / eval MODE calls in that closure: (attribute, \"eval\" | \"train\"); keras `training=` included")
+    src += htable("helperPredictForwardModes", "List (String × String)", lambda d: plist(d["forwardModes"]),
+                  "(callable attribute that is called = forward pass, mode set unconditionally before it in the same call | \"unset\")")
+    src += htable("helperPredictSelfEscapes", "List String", lambda d: slist(d["escapes"]),
+                  "callees that receive the bare helper object in that closure")
+    src += htable("helperPredictAttrArgs", "List String", lambda d: slist(d["attrArgs"]),
+                  "`callee(attribute)`: functions (other than pure builtins / array constructors) that receive a helper attribute")
+    src += htable("helperTrainStepForwardModes", "List (String × String)", lambda d: plist(d["trainForwardModes"]),
+                  "the same for `train_step`, the fit-side method that runs the networks")
+    src += "\n"
     src += "/-- `_AdversarialFairness.fit`: the value passed as `reinitialize` -/\n"
     src += f"def advReinit (has_classes warm_start : Bool) : Bool := {reinit}\n"
     src += "/-- `_validate_input`: the guard of `self.__setup(..)`; `is_fitted` = `hasattr(self, \"_is_setup\")` -/\n"
@@ -1064,5 +1149,10 @@ def lifecycle_src(repo):
             "fitHistoryReads": {t: data[t]["fitHistoryReads"] for t in tags if data[t]["fitHistoryReads"]},
             "initDerivedReads": {t: data[t]["initDerivedReads"] for t in tags if data[t]["initDerivedReads"]},
             "constraints": {t: ("inPlace" if v[0] else "copied") for t, v in cons.items()},
-            "adv": {"reinit": reinit, "setup": setup, "keep": keep}}
+            "adv": {"reinit": reinit, "setup": setup, "keep": keep},
+            "predictValidateResets": {t: data[t]["predictValidateResets"] for t in tags if data[t]["predictValidateResets"]},
+            "helperPredictCalls": {t: est_h[t]["calls"] for t in tags if est_h[t]["calls"]},
+            "helperPredictClosure": {t: hfacts[t]["closure"] for t in htags},
+            "helperPredictWrites": {t: hfacts[t]["writes"] for t in htags if hfacts[t]["writes"]},
+            "helperPredictModeCalls": {t: hfacts[t]["modes"] for t in htags if hfacts[t]["modes"]}}
     return "LifecycleSrc.lean", src, meta
